@@ -23,7 +23,7 @@ Proof.
     + unfold leave_here. destruct (existsb (N.eqb (100000 + e_id e)) (k_seen (kc c))); [reflexivity|].
       destruct (is_admin c && _); reflexivity.
     + unfold commit_here. destruct (negb (forallb _ (e_refs e))); [reflexivity|].
-      destruct (negb (e_auth e)); [reflexivity|]. rewrite nodup_msgs_apply_commit. reflexivity.
+      destruct (negb (e_auth e) || (e_bad e =? 8)); [destruct (negb (e_auth e)); reflexivity|]. rewrite nodup_msgs_apply_commit. reflexivity.
 Qed.
 
 Lemma foreign_process_norb f c e m : e_author e <> me c ->
@@ -129,7 +129,7 @@ Proof.
     + unfold leave_here. destruct (existsb _ _); [discriminate|]. destruct (is_admin c && _); [discriminate|].
       destruct (is_admin c); discriminate.
     + unfold commit_here. destruct (negb (forallb _ (e_refs e))); [discriminate|].
-      destruct (negb (e_auth e)); [discriminate|]. rewrite apply_commit_rk. discriminate.
+      destruct (negb (e_auth e) || (e_bad e =? 8)); [destruct (negb (e_auth e)); discriminate|]. rewrite apply_commit_rk. discriminate.
 Qed.
 
 Lemma app_own_id_fuel f : forall c e, snd (process f c e) = RApp -> e_author e <> me c ->
